@@ -24,9 +24,11 @@ import (
 	"time"
 
 	"github.com/ChainSafe/gossamer/dot/network/messages"
+	pb "github.com/ChainSafe/gossamer/dot/network/proto"
 	"github.com/ChainSafe/gossamer/dot/types"
 	"github.com/ChainSafe/gossamer/lib/common"
 	"github.com/ChainSafe/gossamer/pkg/scale"
+	"google.golang.org/protobuf/proto"
 )
 
 type vnCase struct {
@@ -364,6 +366,7 @@ func vnSeeded(res *vResult) {
 	type target struct {
 		name   string
 		valid  [][]byte
+		extra  [][]byte // well-formed at the protobuf layer but odd: mutation bases, not required to decode
 		decode func(b []byte) (any, error)
 		encode func(m any) ([]byte, error)
 	}
@@ -384,7 +387,14 @@ func vnSeeded(res *vResult) {
 		} {
 			valid = append(valid, must(r.Encode()))
 		}
-		targets = append(targets, target{"blockrequest", valid,
+		// what a peer can send: a syntactically fine protobuf whose number / hash field has any length
+		var extra [][]byte
+		for _, n := range []int{0, 1, 3, 5, 8} {
+			extra = append(extra, must(proto.Marshal(&pb.BlockRequest{Fields: 1 << 24, FromBlock: &pb.BlockRequest_Number{Number: make([]byte, n)}, MaxBlocks: 1})))
+			extra = append(extra, must(proto.Marshal(&pb.BlockRequest{Fields: 3 << 24, FromBlock: &pb.BlockRequest_Hash{Hash: make([]byte, n)}})))
+		}
+		extra = append(extra, must(proto.Marshal(&pb.BlockRequest{Fields: 1})))
+		targets = append(targets, target{"blockrequest", valid, extra,
 			func(b []byte) (any, error) { m := new(messages.BlockRequestMessage); err := m.Decode(b); return m, err },
 			func(m any) ([]byte, error) { return m.(*messages.BlockRequestMessage).Encode() }})
 		hdr := types.NewHeader(h, h, h, 7, types.NewDigest())
@@ -394,15 +404,20 @@ func vnSeeded(res *vResult) {
 			{Hash: hdr.Hash(), Header: hdr, Body: body, Justification: &just},
 			{Hash: h},
 		}}
-		targets = append(targets, target{"blockresponse", [][]byte{must(resp.Encode()), must((&messages.BlockResponseMessage{}).Encode())},
+		respExtra := [][]byte{
+			must(proto.Marshal(&pb.BlockResponse{Blocks: []*pb.BlockData{{Hash: []byte{1}, Header: []byte{1, 2}, Body: [][]byte{{}}}}})),
+			must(proto.Marshal(&pb.BlockResponse{Blocks: []*pb.BlockData{{}, nil}})),
+			must(proto.Marshal(&pb.BlockResponse{Blocks: []*pb.BlockData{{Hash: make([]byte, 32), Header: must(resp.Encode())[:40], IsEmptyJustification: true}}})),
+		}
+		targets = append(targets, target{"blockresponse", [][]byte{must(resp.Encode()), must((&messages.BlockResponseMessage{}).Encode())}, respExtra,
 			func(b []byte) (any, error) { m := new(messages.BlockResponseMessage); err := m.Decode(b); return m, err },
 			func(m any) ([]byte, error) { return m.(*messages.BlockResponseMessage).Encode() }})
 	}
 	// warp proof request, consensus message, light request / response
-	targets = append(targets, target{"warpproofrequest", [][]byte{must((&messages.WarpProofRequest{Begin: h}).Encode())},
+	targets = append(targets, target{"warpproofrequest", [][]byte{must((&messages.WarpProofRequest{Begin: h}).Encode())}, nil,
 		func(b []byte) (any, error) { m := new(messages.WarpProofRequest); err := m.Decode(b); return m, err },
 		func(m any) ([]byte, error) { return m.(*messages.WarpProofRequest).Encode() }})
-	targets = append(targets, target{"consensus", [][]byte{{1, 2, 3}, {}},
+	targets = append(targets, target{"consensus", [][]byte{{1, 2, 3}, {}}, nil,
 		func(b []byte) (any, error) { m := new(ConsensusMessage); err := m.Decode(b); return m, err },
 		func(m any) ([]byte, error) { return m.(*ConsensusMessage).Encode() }})
 	{
@@ -411,10 +426,10 @@ func vnSeeded(res *vResult) {
 		lr.RemoteReadRequest.Keys = [][]byte{{1}, {4, 5}}
 		lresp := NewLightResponse()
 		lresp.RemoteReadResponse.Proof = []byte{4, 5}
-		targets = append(targets, target{"lightrequest", [][]byte{must(lr.Encode()), must(NewLightRequest().Encode())},
+		targets = append(targets, target{"lightrequest", [][]byte{must(lr.Encode()), must(NewLightRequest().Encode())}, nil,
 			func(b []byte) (any, error) { return newLightRequestFromBytes(b) },
 			func(m any) ([]byte, error) { return m.(*LightRequest).Encode() }})
-		targets = append(targets, target{"lightresponse", [][]byte{must(lresp.Encode()), must(NewLightResponse().Encode())},
+		targets = append(targets, target{"lightresponse", [][]byte{must(lresp.Encode()), must(NewLightResponse().Encode())}, nil,
 			func(b []byte) (any, error) { return newLightResponseFromBytes(b) },
 			func(m any) ([]byte, error) { return m.(*LightResponse).Encode() }})
 	}
@@ -425,9 +440,18 @@ func vnSeeded(res *vResult) {
 	small := []byte{0, 1, 2, 3, 4, 8, 10, 16, 18, 26, 0x7f, 0x80, 0xff}
 	for _, tg := range targets {
 		for i := 0; i < per; i++ {
-			v := tg.valid[rng.Intn(len(tg.valid))]
+			bases := append(append([][]byte(nil), tg.valid...), tg.extra...)
+			vi := rng.Intn(len(bases))
+			if i < len(bases) {
+				vi = i // every base once, unmodified
+			}
+			v := bases[vi]
 			b := append([]byte(nil), v...)
-			switch k := rng.Intn(6); {
+			k := rng.Intn(6)
+			if i < len(bases) {
+				k = 5
+			}
+			switch {
 			case k == 0 && len(b) > 0:
 				b = b[:rng.Intn(len(b))]
 			case k <= 2 && len(b) > 0:
@@ -439,7 +463,7 @@ func vnSeeded(res *vResult) {
 				p := rng.Intn(len(b) + 1)
 				b = append(b[:p], append([]byte{small[rng.Intn(len(small))]}, b[p:]...)...)
 			default:
-				if i%50 != 0 { // keep some valid ones
+				if i >= len(bases) && i%50 != 0 { // keep the bases themselves and some more unmodified copies
 					n := rng.Intn(12)
 					b = make([]byte, n)
 					for j := range b {
@@ -473,7 +497,7 @@ func vnSeeded(res *vResult) {
 				res.Fail(-1, i, tg.name, "allocation", fmt.Sprint("<= ", vnBudget(len(b))+1<<20), fmt.Sprint(alloc), "C33/seeded/"+tg.name+"/alloc", raw)
 			}
 			if err != nil {
-				if bytes.Equal(b, v) {
+				if vi < len(tg.valid) && bytes.Equal(b, v) {
 					res.Fail(-1, i, tg.name, "decode(valid)", "message", "error: "+err.Error(), "C33/seeded/"+tg.name+"/rejects-valid", raw)
 				}
 				continue
